@@ -48,6 +48,9 @@ let dispatch (f : string array) : string option =
       let two = String.length f.(1) > 0 && f.(1).[String.length f.(1) - 1] = '2' in
       if f.(1) = "h" then Some (Memdrv.run_hhist (parse_env f.(2)) ops)
       else Some (Memdrv.run_hist ~two (parse_env f.(2)) ops)
+  | "lin" ->
+      (* lin <env> <setup> <outcomes> <thread program>... *)
+      Some (Lin.run (Array.to_list (Array.sub f 1 (Array.length f - 1))))
   | "wfcheck" ->
       (* wfcheck <snapshot>: the extracted WF checker on a state snapshot (of the implementation) *)
       Some (try out_bool (api_wf_b (Memdrv.parse_snapshot f.(1))) with _ -> "B:0")
